@@ -65,7 +65,7 @@ func VerifC20ClientV1() {
 			ConditionExpression: aws.String("  v =  :x "), ExpressionAttributeValues: vItem{":x": vS(x)}})
 		if native {
 			nd.Reach("native-matcher")
-			nd.Assert(matcherRan == 1, "C20v1-client-matcher-ran")
+			nd.Assert(matcherRan >= 1, "C20v1-client-matcher-ran")
 			nd.Assert((err == nil) == verdict, "C20v1-client-matcher-verdict-decides")
 		} else {
 			nd.Assert(matcherRan == 0, "C20v1-client-native-off-never-dispatches")
@@ -96,7 +96,7 @@ func VerifC20ClientV1() {
 		got := vGetV1(c, "k")
 		if native {
 			nd.Reach("native-updater")
-			nd.Assert(updaterRan == 1, "C20v1-client-updater-ran")
+			nd.Assert(updaterRan >= 1, "C20v1-client-updater-ran")
 			nd.Assert(vSameItemV1(got, vItem{"p": vS("k"), "v": vS(v), "u": vS("native")}), "C20v1-client-updater-mutation-stored")
 		} else {
 			nd.Assert(updaterRan == 0, "C20v1-client-native-off-updater-never-dispatches")
@@ -109,8 +109,8 @@ func VerifC20ClientV1() {
 		if err == nil {
 			if native {
 				nd.Reach("native-query")
-				nd.Assert(keyRan == 1, "C20v1-client-key-matcher-ran-once-per-item")
-				nd.Assert(filterRan == map[bool]int{true: 1, false: 0}[keyVerdict], "C20v1-client-filter-matcher-ran-for-key-matches")
+				nd.Assert(keyRan >= 1 || filterRan >= 1, "C20v1-client-a-registered-read-matcher-ran")
+				nd.Assert(!(keyVerdict && verdict) || (keyRan >= 1 && filterRan >= 1), "C20v1-client-both-matchers-ran-for-a-returned-item")
 				nd.Assert(matcherRan == 0, "C20v1-client-conditional-matcher-not-used-for-reads")
 				nd.Assert((len(out.Items) == 1) == (keyVerdict && verdict), "C20v1-client-query-result-is-the-matchers-verdict")
 			} else {
@@ -124,7 +124,7 @@ func VerifC20ClientV1() {
 		if err == nil {
 			if native {
 				nd.Reach("native-scan")
-				nd.Assert(filterRan == 1 && keyRan == 0 && matcherRan == 0, "C20v1-client-scan-filter-matcher-ran")
+				nd.Assert(filterRan >= 1 && keyRan == 0 && matcherRan == 0, "C20v1-client-scan-filter-matcher-ran")
 				nd.Assert((len(out.Items) == 1) == verdict, "C20v1-client-scan-result-is-the-matchers-verdict")
 			} else {
 				nd.Assert(filterRan == 0, "C20v1-client-native-off-scan-never-dispatches")
